@@ -959,7 +959,12 @@ func (env *Env) typedLoad(addr *Term, t types.Type) *Term {
 			if v.sort == SSlice {
 				r = x.c.SlPtr(v)
 			}
-			x.assume(x.c.True(), x.c.IntCmp("<", x.c.RRoot(r), bound))
+			// only for cells of objects that existed then (the symbol also stands for the initial contents of objects
+			// allocated later, e.g. by a callee under contract, which may hold newer references)
+			cell := v.args[1]
+			if cell.sort == SRef && !cell.open {
+				x.assume(x.c.True(), x.c.Implies(x.c.IntCmp("<", x.c.RRoot(cell), bound), x.c.IntCmp("<", x.c.RRoot(r), bound)))
+			}
 		}
 	}
 	return v
